@@ -134,19 +134,105 @@ def len_facts(p, upto_bb, coll):
     return out
 
 
+_CTX = None
+
+
+def _truth_atoms(t, val, bb=0):
+    """conditions that hold when the boolean term t has the value val (through `!`)"""
+    for _ in range(4):
+        if isinstance(t, tuple) and t and t[0] == "unop" and t[1] == "Not":
+            t, val = t[2], not val
+        else:
+            break
+    if not isinstance(t, tuple) or not t or t[0] == "const":
+        return []
+    return [PathWith._C(t, ("eq", val), bb)]
+
+
+def filtered_element_conds(c0):
+    """c0 is the element a `for` loop (or next()) takes from an iterator built with .filter(pred): every element that gets through satisfies
+    pred.  Returns one list of conditions (on c0) per way pred can return true, or None when c0 is no such element."""
+    if _CTX is None or not (isinstance(c0, tuple) and len(c0) > 2 and c0[0] == "field" and c0[2] == 0 and isinstance(c0[1], tuple) and c0[1][0] == "downcast" and c0[1][2] == "Some"
+                            and is_call(strip_refs(c0[1][1]), "Iterator>::next") and call_args(strip_refs(c0[1][1]))):
+        return None
+    it = call_args(strip_refs(c0[1][1]))[0]
+    alts = None
+    for _ in range(10):
+        while isinstance(it, tuple) and it and it[0] in ("ref", "refmut"):
+            it = it[1]
+        if isinstance(it, tuple) and it and it[0] == "loc" and len(it) > 2:
+            it = it[2]
+        elif isinstance(it, tuple) and it and it[0] == "havoc" and len(it) > 3:
+            it = it[3]          # a loop-carried iterator: what it was built from (consuming elements does not change what later ones satisfy)
+        elif is_call(it, "IntoIterator>::into_iter", "Iterator::by_ref", "Iterator::rev", "Iterator::skip", "Iterator::take", "Iterator::peekable", "Iterator::fuse") and call_args(it):
+            it = call_args(it)[0]
+        elif is_call(it, "Iterator::filter") and len(call_args(it)) == 2:
+            clo = strip_refs(call_args(it)[1])
+            if not (isinstance(clo, tuple) and clo[:2] == ("agg", "closure")):
+                return None
+            cps = _CTX.paths(clo[2]) or []
+            mine = []
+            for q in cps:
+                if q.end[0] != "return":
+                    if q.end[0] == "diverge":
+                        continue
+                    return None
+                v = q.end[1]
+                if isinstance(v, tuple) and v and v[0] == "const" and v[2] is False:
+                    continue
+                cs = [PathWith._C(c.term, c.fact, 0) for c in q.conds()] + _truth_atoms(v, True)
+                # the closure sees its element as `&Item` in parameter 2
+                sub = lambda x: c0 if x == ("param", 2) else None
+                mine.append([PathWith._C(_rewrite(c.term, sub), c.fact, 0) for c in cs])
+            if not mine:
+                return None
+            alts = mine if alts is None else [a + b for a in alts for b in mine]
+            it = call_args(it)[0]
+        else:
+            break
+    return alts
+
+
 def len_gt(p, bb, coll, k):
     """len(coll) > k follows from the conditions before the site: every n in 0..=k is excluded by some length condition on coll
-    (len() switch, len() compared with a constant either way round, is_empty(), slice-pattern length tests)"""
+    (len() switch, len() compared with a constant either way round, is_empty(), slice-pattern length tests); an element drawn from
+    `.filter(pred)` also satisfies pred"""
     c0 = _lib.coll(coll)
-    allowed = []
+
+    def facts_of(conds):
+        out = []
+        for c in conds:
+            lf = length_fact(c)
+            if lf is not None and lf[0] == c0:
+                out.append(lf[1])
+            t = c.term
+            if is_call(t, "::is_empty") and _lib.coll(call_args(t)[0]) == c0 and c.fact[0] == "eq" and isinstance(c.fact[1], bool):
+                out.append((lambda n: n == 0) if c.fact[1] else (lambda n: n != 0))
+        return out
+    allowed = facts_of(conds_before(p, bb))
+    alts = filtered_element_conds(c0) or [[]]
+    for alt in alts:
+        al = allowed + facts_of(alt)
+        if not (bool(al) and all(any(not f(n) for f in al) for n in range(0, k + 1))):
+            return False
+    return True
+
+
+def ends_differ(p, bb, c0):
+    """the path has seen c0[0] == A and c0[len - 1] == B for different constants A, B: one element cannot be both, so len(c0) >= 2"""
+    first, last = set(), set()
     for c in conds_before(p, bb):
-        lf = length_fact(c)
-        if lf is not None and lf[0] == c0:
-            allowed.append(lf[1])
-        t = c.term
-        if is_call(t, "::is_empty") and _lib.coll(call_args(t)[0]) == c0 and c.fact[0] == "eq" and isinstance(c.fact[1], bool):
-            allowed.append((lambda n: n == 0) if c.fact[1] else (lambda n: n != 0))
-    return bool(allowed) and all(any(not f(n) for f in allowed) for n in range(0, k + 1))
+        q = inequality_fact(c)
+        if q is None or q[2]:
+            continue
+        for a, b in ((q[0], q[1]), (q[1], q[0])):
+            if isinstance(a, tuple) and a and a[0] == "index" and _lib.coll(a[1]) == c0 and const_of(b) is not None:
+                ix = strip_refs(a[2])
+                if const_int(ix) == 0:
+                    first.add(const_of(b))
+                elif isinstance(ix, tuple) and ix[0] == "binop" and ix[1] == "Sub" and const_int(ix[3]) == 1 and length_of(ix[2]) is not None and length_of(ix[2]) == c0:
+                    last.add(const_of(b))
+    return bool(first) and bool(last) and not (first & last)
 
 
 def index_below_len(p, bb, ix, coll, strict=True):
@@ -404,6 +490,16 @@ def discharge(ctx, body, p, ev, kind):
                                                  or (const_int(strip_refs(ends[0])) is not None and const_int(strip_refs(ends[1])) is not None and const_int(strip_refs(ends[0])) <= const_int(strip_refs(ends[1])))
                                                  or (const_int(strip_refs(ends[0])) is not None and length_of(ends[1]) is not None and length_of(ends[1]) == c0)):
                 return "G6-slice-at-own-length"
+
+            # &c[k..c.len() - j]: in range when len >= k + j; two different bytes seen at c[0] and c[len - 1] need two positions
+            if a_[1] == "Range" and const_int(strip_refs(ends[0])) is not None:
+                h_ = strip_refs(ends[1])
+                if isinstance(h_, tuple) and h_ and h_[0] == "binop" and h_[1] == "Sub" and const_int(h_[3]) is not None and length_of(h_[2]) is not None and length_of(h_[2]) == c0:
+                    need = const_int(strip_refs(ends[0])) + const_int(h_[3])
+                    if need >= 1 and len_gt(p, bb, ev.args[0], need - 1):
+                        return "G6-trimmed-by-constants-within-length"
+                    if need <= 2 and const_int(h_[3]) <= 1 and ends_differ(p, bb, c0):
+                        return "G6-between-two-distinct-end-elements"
 
             def counted(t):
                 """a number of elements of the same collection: iter().position(..) found, iter().take_while(..).count(), iter().filter(..).count()"""
@@ -800,6 +896,8 @@ def fingerprint(body, ev, kind, ctx=None):
 
 
 def run(ctx):
+    global _CTX
+    _CTX = ctx
     fx = ctx.fx
     exemptions = load_exemptions()
     used_ex = set()
